@@ -876,3 +876,101 @@ def struct_optional_none_vs_empty(ctx):
             ctx.ok(f'{f.qualname}:optional=None vs []', s, 'None is tested by identity', f)
         else:
             ctx.undecided(f'{f.qualname}:optional=None vs []', s, 'form not recognised', f)
+
+
+def _nan_dropping(expr, valuenames):
+    """a builtin min()/max() call (possibly nested) that has one of valuenames among its operands: for a NaN the result
+    depends on the argument order and is one of the OTHER operands - the NaN silently becomes a number"""
+    for n in ast.walk(expr):
+        if isinstance(n, ast.Call) and isinstance(n.func, ast.Name) and n.func.id in ('min', 'max') and len(n.args) >= 2:
+            for a in n.args:
+                if any(isinstance(x, ast.Name) and x.id in valuenames for x in ast.walk(a)):
+                    return n
+    return None
+
+
+@rule('C01.R10', min_instances=2)
+def nan_is_never_turned_into_a_number(ctx):
+    """the conversion of a double (FloatRange.__call__ and the clamp helper it ends in) hands a NaN through unchanged, so
+    that the range comparison of validate refuses it: clamp is the median by sorting (comparisons with NaN are false, the
+    NaN stays in the middle); a clamp built from min()/max() returns one of the limits instead"""
+    m = ctx.m
+    cl = m.func('frappy.lib.clamp')
+    ctx.analysed(cl)
+    params = [a.arg for a in cl.node.args.args]
+    if len(params) != 3:
+        raise AnchorMissing('clamp(min, value, max) with three parameters not found')
+    vname = {params[1]}
+    rets = [n for n in body_walk(cl.node) if isinstance(n, ast.Return) and n.value is not None]
+    if not rets:
+        raise AnchorMissing('clamp has no return', violation=f'{cl.qualname}:NaN handed through')
+    nan_test = any(isinstance(n, ast.Compare) and len(n.ops) == 1 and isinstance(n.ops[0], ast.NotEq) and src(n.left) == src(n.comparators[0])
+                   for n in body_walk(cl.node)) or any(call_attr(c) == 'isnan' for c in calls_in(cl.node))
+    for r in rets:
+        v = r.value
+        exprs = origins(v, cl.node) if isinstance(v, ast.Name) else [v]
+        for e in exprs:
+            median = isinstance(e, ast.Subscript) and isinstance(e.value, ast.Call) and dotted(e.value.func) == 'sorted' and \
+                isinstance(e.slice, ast.Constant) and e.slice.value == 1
+            drop = _nan_dropping(e, vname)
+            if median:
+                ctx.ok(f'{cl.qualname}:NaN handed through', r, 'median by sorted(): a NaN in the middle position stays there', cl)
+            elif drop is not None and not nan_test:
+                ctx.bad(f'{cl.qualname}:NaN handed through', r, f'`{src(drop)}`: for a NaN the builtin returns another operand, so clamp() turns '
+                        'NaN into one of the limits; FloatRange.__call__ ends in clamp(-float_max, value, float_max) and validate then accepts the '
+                        'result: a NaN from the wire or from a driver becomes -1.8e308 instead of a RangeError', cl)
+            else:
+                ctx.undecided(f'{cl.qualname}:NaN handed through', r, f'clamp form `{src(e)}` not classified', cl)
+    f = m.method(f'{DT}.FloatRange', '__call__', inherited=False)
+    ctx.analysed(f)
+    p = f.node.args.args[1].arg
+    for r in [n for n in body_walk(f.node) if isinstance(n, ast.Return) and n.value is not None]:
+        drop = _nan_dropping(r.value, {p})
+        if drop is not None:
+            ctx.bad(f'{f.qualname}:NaN handed through', r, f'`{src(drop)}` turns a NaN into one of the bounds: validate accepts it', f)
+        elif isinstance(r.value, ast.Call) and dotted(r.value.func) == 'clamp':
+            ctx.ok(f'{f.qualname}:NaN handed through', r, 'ends in clamp(), decided above', f)
+        else:
+            ctx.info(f'{f.qualname}:NaN handed through', r, f'returns `{src(r.value)}`', f)
+
+
+LEN_PROPS = {'StringType': ('minchars', 'maxchars'), 'BLOBType': ('minbytes', 'maxbytes'), 'ArrayOf': ('minlen', 'maxlen')}
+
+
+@rule('C01.R7e', min_instances=6)
+def length_is_measured_on_the_value(ctx):
+    """the quantity compared with minchars/maxchars, minbytes/maxbytes, minlen/maxlen is len() of the offered value itself
+    (character points of a string, bytes of a blob, elements of an array), not of a transformed copy (e.g. the encoded
+    bytes of a string)"""
+    m = ctx.m
+    for cname, props in LEN_PROPS.items():
+        ci, res = _analyse_class(m, cname)
+        for meth in ('__call__', 'validate', 'check_type'):
+            ma = res.get(meth)
+            if ma is None or not ma.param:
+                continue
+            f = ma.f
+            for n in body_walk(f.node):
+                if not (isinstance(n, ast.Compare) and len(n.ops) == 1 and isinstance(n.ops[0], (ast.Lt, ast.LtE, ast.Gt, ast.GtE))):
+                    continue
+                sides = [n.left, n.comparators[0]]
+                lim = [s for s in sides if isinstance(s, ast.Attribute) and dotted(s.value) == 'self' and s.attr in props]
+                if len(lim) != 1:
+                    continue
+                other = sides[1] if lim[0] is sides[0] else sides[0]
+                ctx.analysed(f)
+                for e in (origins(other, f.node) if isinstance(other, ast.Name) else [other]):
+                    key = f'{f.qualname}:{lim[0].attr} compared with the length of the value'
+                    if isinstance(e, ast.Call) and dotted(e.func) == 'len' and len(e.args) == 1:
+                        a = e.args[0]
+                        if isinstance(a, ast.Name):
+                            ctx.ok(key, n, f'`{src(e)}`', f)
+                        elif any(isinstance(x, ast.Call) and call_attr(x) in ('encode', 'decode', 'strip', 'lstrip', 'rstrip', 'split', 'replace', 'hex')
+                                 for x in ast.walk(a)):
+                            ctx.bad(key, n, f'`{src(e)}` measures a transformed copy of the value: the declared limit counts '
+                                    f'{"character points" if "chars" in lim[0].attr else "elements"} of the value itself - e.g. a non-ASCII string '
+                                    'whose UTF-8 encoding is longer than its character count is accepted below minchars / refused within maxchars', f)
+                        else:
+                            ctx.undecided(key, n, f'`{src(e)}`: argument of len() not classified', f)
+                    else:
+                        ctx.undecided(key, n, f'compared quantity `{src(e)}` is not a len() call', f)
